@@ -31,6 +31,10 @@ func (self ValueAnyObject) Display() (string, *VmInterrupt) {
 func (self ValueAnyObject) IsEqual(other Value) (bool, *VmInterrupt) {
 	otherObj := other.(ValueAnyObject)
 
+	if len(self.FieldsInternal) != len(otherObj.FieldsInternal) {
+		return false, nil
+	}
+
 	for key, value := range self.FieldsInternal {
 		otherValue, found := otherObj.FieldsInternal[key]
 		if !found {
